@@ -252,6 +252,21 @@ def storage_params():
     return out
 
 
+def is_cached_mode():
+    fn = _find(_src('lab.py'), 'Lab', 'is_cached')
+    if fn is None:
+        return 'IsCachedUnknown'
+    body = [n for n in fn.body if not (isinstance(n, ast.Expr) and isinstance(n.value, ast.Constant))]
+    body = [n for n in body if not (isinstance(n, ast.Expr) and ast.unparse(n).startswith('check_tasks('))]
+    if len(body) == 1 and isinstance(body[0], ast.Return):
+        r = ast.unparse(body[0].value)
+        if r == 'task._lt.cache.is_cached(self._storage, task)':
+            return 'IsCachedAsksCache'
+        if r == 'self._storage.exists(task.cache_key)':
+            return 'IsCachedAsksStorage'
+    return 'IsCachedUnknown'
+
+
 def cache_params():
     out = dict(order='UnknownOrder', cleanup='UnknownCleanup')
     ca = _src('cache.py')
@@ -596,6 +611,8 @@ def with_probes():
     _settle(xp, 'close', 'CloseUnknown', probed)
     _settle(xp, 'binding', 'CtxBindUnknown', probed)
     cp = cache_params()
+    cp['iscached'] = is_cached_mode()
+    _settle(cp, 'iscached', 'IsCachedUnknown', probed)
     _settle(cp, 'order', 'UnknownOrder', probed)
     _settle(cp, 'cleanup', 'UnknownCleanup', probed)
     return sp, ep, sg, vp, ipar, lp, xp, cp
@@ -636,7 +653,8 @@ def render():
               'Definition results_view_src : view_mode := %(view)s.' % ep,
               'Definition exec_scope_src : exec_scope := %(scope)s.' % ep]
     lines += ['Definition save_order_src : save_order := %(order)s.' % cp,
-              'Definition save_cleanup_src : save_cleanup := %(cleanup)s.' % cp]
+              'Definition save_cleanup_src : save_cleanup := %(cleanup)s.' % cp,
+              'Definition is_cached_src : is_cached_mode := %(iscached)s.' % cp]
     chars = sg['g_chars']
     lines += ['From Coq Require Import NArith List.',
               'Definition storage_guards_src : storage_guards :=',
